@@ -119,8 +119,14 @@ class Stats:
         }
 
 
+def _out_root():
+    # self-tests against scratch copies redirect evidence/replays so that /verif/evidence is
+    # only ever written by runs against the registered repository
+    return os.environ.get('VK_OUT') or env.VERIF
+
+
 def _replay_dir():
-    d = os.path.join(env.VERIF, 'replays')
+    d = os.path.join(_out_root(), 'replays')
     os.makedirs(d, exist_ok=True)
     return d
 
@@ -399,8 +405,8 @@ def _finish(prop, tier, seed, results, wall):
     }
     if errors:
         evidence['harness_errors'] = [e['error'][-1500:] for e in errors[:3]]
-    os.makedirs(os.path.join(env.VERIF, 'evidence'), exist_ok=True)
-    with open(os.path.join(env.VERIF, 'evidence', f'{prop.ID}.json'), 'w') as f:
+    os.makedirs(os.path.join(_out_root(), 'evidence'), exist_ok=True)
+    with open(os.path.join(_out_root(), 'evidence', f'{prop.ID}.json'), 'w') as f:
         json.dump(evidence, f, indent=1, default=_json_default)
         f.write('\n')
 
